@@ -811,11 +811,34 @@ func (d *Driver) judgeC11() {
 				if n.Kind != AReconnect || !n.Leader {
 					continue
 				}
-				if k >= len(tests) {
-					break
+				// the read that belongs to this notification: the first one not yet matched that was issued
+				// 100 ms (plus stalls of this instance) after it. (Matching by count alone goes wrong when a
+				// notification finds the instance leading but the handler, run a moment later, does not.)
+				due := n.T + 100*time.Millisecond + d.stallIn(in.idx, n.T, n.T+time.Second) + 10*time.Millisecond
+				var g1 *Op
+				for j := k; j < len(tests); j++ {
+					if tests[j].TInvoke >= n.T+100*time.Millisecond && tests[j].TInvoke <= due {
+						g1, k = tests[j], j+1
+						break
+					}
 				}
-				g1 := tests[k]
-				k++
+				if g1 == nil {
+					// a reconnect notification delivered to a leader, and no verification read followed:
+					// "keeps leadership if and only if a fresh read shows ..." needs that read. (The
+					// verification starts 100 ms after the notification; an instance that stopped leading,
+					// was stopped, or whose run ended before that owes none.)
+					var t *Term
+					for _, x := range myTerms {
+						if x.SStart < n.Step && (x.Fall == nil || x.SEnd > n.Step) {
+							t = x
+						}
+					}
+					if t != nil && (t.Fall == nil || t.End > due) && due < d.endAt && !d.stopInvokedBefore(in.idx, o.gen, due) {
+						d.judgedInc("C11")
+						d.h.violate("C11", "no-verification-after-reconnect", fmt.Sprintf("i%d.%d: reconnect notification at %v while leading; no verification read of the record followed", in.idx, o.gen, n.T), due, n.Step)
+					}
+					continue
+				}
 				var t *Term
 				for _, x := range myTerms {
 					if x.SStart < n.Step && (x.Fall == nil || x.SEnd > n.Step) {
